@@ -253,7 +253,7 @@ export function atomNode([src, ctors, inh]) {
 export function randomTypeExpr(rng, depth, out) {
   const pickAtom = () => atomNode(rng.pick(ATOMS));
   if (depth === 0) return pickAtom();
-  const op = rng.pick(['atom', 'union', 'union', 'alias', 'paren', 'tupleIndex', 'arrayIndex', 'propIndex', 'nonNullable', 'nonNullableNullFirst', 'aliasOfUnion', 'interfaceIndex', 'interfaceMethodIndex', 'typeLitMethodIndex', 'tupleNumberIndex', 'typeLitQuotedIndex', 'quotedKeyUnionIndex', 'keyAliasIndex', 'optionalTupleNumberIndex', 'optionalTupleLiteralIndex', 'genericAliasFn', 'genericAliasArray', 'genericAliasTuple', 'genericAliasIdentity', 'ctorSigInterface']);
+  const op = rng.pick(['atom', 'union', 'union', 'alias', 'paren', 'tupleIndex', 'arrayIndex', 'propIndex', 'nonNullable', 'nonNullableNullFirst', 'aliasOfUnion', 'interfaceIndex', 'interfaceMethodIndex', 'typeLitMethodIndex', 'tupleNumberIndex', 'typeLitQuotedIndex', 'quotedKeyUnionIndex', 'keyAliasIndex', 'optionalTupleNumberIndex', 'optionalTupleLiteralIndex', 'genericAliasFn', 'genericAliasArray', 'genericAliasTuple', 'genericAliasIdentity', 'ctorSigInterface', 'arrayLiteralIndex', 'mergedIndexAndCallSig']);
   const decl = (t) => out.decls.push({ text: t });
   const sub = () => randomTypeExpr(rng, depth - 1, out);
   const union = (a, b) => ({ ctors: [...a.ctors, ...b.ctors.filter((c) => !a.ctors.includes(c))], inhabitants: [...a.inhabitants, ...b.inhabitants] });
@@ -280,6 +280,9 @@ export function randomTypeExpr(rng, depth, out) {
     // (keys listed in the members' declaration order: which of the two orders counts is not decided by the statement)
     case 'quotedKeyUnionIndex': { const a = sub(), b = sub(); const n = fresh('Q'); const iface = rng.bool(); decl(iface ? `interface ${n} { 'aria-label': ${a.src}; plain: ${b.src}; other: symbol }` : `type ${n} = { 'aria-label': ${a.src}; plain: ${b.src}; other: symbol };`); return { src: `${n}["aria-label" | "plain"]`, ...union(a, b), ops: ['quotedKeyUnionIndex', ...a.ops, ...b.ops] }; }
     case 'keyAliasIndex': { const a = sub(), b = sub(); const n = fresh('Q'), k = fresh('K'); decl(`type ${n} = { plain: ${a.src}; 'data-id': ${b.src}; other: symbol };`); decl(`type ${k} = 'plain' | 'data-id';`); return { src: `${n}[${k}]`, ...union(a, b), ops: ['keyAliasIndex', ...a.ops, ...b.ops] }; }
+    case 'arrayLiteralIndex': { const a = sub(); const form = rng.int(3); const n = form === 2 ? fresh('R') : null; if (n) decl(`type ${n} = (${a.src})[];`); return { ...a, src: form === 0 ? `(${a.src})[][0]` : form === 1 ? `Array<${a.src}>[1]` : `${n}[0]`, ops: ['arrayLiteralIndex', ...a.ops] }; }
+    // an interface declared in parts, each part with a member that has no name (index signature, call signature)
+    case 'mergedIndexAndCallSig': { const n = fresh('X'); const parts = rng.shuffle([`interface ${n} { [k: string]: unknown }`, `interface ${n} { (e: string): void }`]); parts.forEach((p) => decl(p)); return { src: n, ctors: parts[0].includes('[k') ? ['Object', 'Function'] : ['Function', 'Object'], inhabitants: [{ js: '({})', atom: 'merged-index-signature' }, { js: '(() => {})', atom: 'merged-call-signature' }], ops: ['mergedIndexAndCallSig'] }; }
     // generic aliases instantiated at the use site
     case 'genericAliasFn': { const n = fresh('G'); decl(`type ${n}<T> = (p: T) => void;`); return { src: `${n}<string>`, ctors: ['Function'], inhabitants: [{ js: '((p) => {})', atom: 'generic-alias-fn' }], ops: ['genericAliasFn'] }; }
     case 'genericAliasArray': { const a = sub(); const n = fresh('G'); decl(`type ${n}<T> = T[];`); return { src: `${n}<${a.src}>`, ctors: ['Array'], inhabitants: [{ js: '[]', atom: 'generic-alias-array' }], ops: ['genericAliasArray'] }; }
@@ -307,7 +310,7 @@ export function encodeEmits(rng, names, out) {
     if (r === 1) { const k = fresh('N'); decl(`type ${k} = ${ns.map(q).join(' | ')};`); return k; }
     const k1 = fresh('N'), k2 = fresh('N'); decl(`type ${k1} = ${q(ns[0])};`); decl(`type ${k2} = ${[k1, ...ns.slice(1).map(q)].join(' | ')};`); return k2;
   };
-  const form = rng.pick(['fnType', 'unionOfFnTypes', 'callSigLiteral', 'callSigInterface', 'extendsChain', 'propertySyntax', 'aliasOfFn', 'intersection', 'exportedInterface', 'mixedDuplicates', 'extendsAlias', 'extendsAliasChain', 'extendsPropertyAlias', 'mergedCallSigInterface', 'mergedPropertyInterface', 'methodSyntax', 'methodSyntaxInterface', 'intersectionOfFnTypes', 'intersectionWithFnTail']);
+  const form = rng.pick(['fnType', 'unionOfFnTypes', 'callSigLiteral', 'callSigInterface', 'extendsChain', 'propertySyntax', 'aliasOfFn', 'intersection', 'exportedInterface', 'mixedDuplicates', 'extendsAlias', 'extendsAliasChain', 'extendsPropertyAlias', 'mergedCallSigInterface', 'mergedPropertyInterface', 'methodSyntax', 'methodSyntaxInterface', 'intersectionOfFnTypes', 'intersectionWithFnTail', 'unionOfFnAliasesAndInterface', 'interfaceExtendsFnAliases']);
   out.ops.push(form);
   switch (form) {
     case 'fnType': return `(e: ${nameUnion(names)}, ...args: any[]) => void`;
@@ -353,6 +356,17 @@ export function encodeEmits(rng, names, out) {
     }
     case 'propertySyntax': return `{ ${names.map((x) => `${/^[A-Za-z_$][\w$]*$/.test(x) ? x : q(x)}: [v: string]`).join('; ')} }`;
     case 'intersection': { const k = Math.max(1, Math.floor(names.length / 2)); return `((e: ${nameUnion(names.slice(0, k))}) => void) & { ${names.slice(k).map((x) => `(e: ${q(x)}): void`).join('; ')} }`; }
+    case 'unionOfFnAliasesAndInterface': {
+      // type A = (e: ..) => void; type B = (e: ..) => void; interface C { (e: ..): void }   SetupContext<A | B | C>
+      const parts = names.map((x, i) => { const n = fresh('E'); if (i % 3 === 2) decl(`interface ${n} { (e: ${q(x)}): void }`); else decl(`type ${n} = (e: ${q(x)}, v?: number) => void;`); return n; });
+      return parts.join(' | ');
+    }
+    case 'interfaceExtendsFnAliases': {
+      if (names.length < 2) return `(e: ${nameUnion(names)}) => void`;
+      const k = names.length - 1; const parents = names.slice(0, k).map((x) => { const n = fresh('E'); decl(`type ${n} = (e: ${q(x)}) => void;`); return n; });
+      const top = fresh('E'); decl(`interface ${top} extends ${parents.join(', ')} { (e: ${q(names[k])}): void }`);
+      return top;
+    }
     // the property syntax written as method signatures (quoted names included)
     case 'methodSyntax': return `{ ${names.map((x) => `${/^[A-Za-z_$][\w$]*$/.test(x) ? x : q(x)}(v: string): void`).join('; ')} }`;
     case 'methodSyntaxInterface': { const n = fresh('E'); decl(`interface ${n} { ${names.map((x) => `${q(x)}(v?: number): void`).join('; ')} }`); return n; }
